@@ -298,6 +298,70 @@ def to_coq(case, res):
     return "%s %d%%nat %s %s %s" % (fn, n, vlib.coq_bool(case["self_in_peers"]), vlib.coq_bool(case.get("dead_peer", False)), vlib.coq_list(evs))
 
 
+def to_coq_fine(case, res):
+    """the same schedule as events of the finer-grained model C13/ModelFine.v (rounds and merger split up)"""
+    typ = case.get("type", "gcounter")
+    n = case["n"]
+    evs = []
+    prev_need = [0] * n
+    for idx, (ev, snaps) in enumerate(zip(case["events"], res["snaps"])):
+        if ev[0] == "fin":
+            continue
+        t0 = list(res["t0"][idx] or [])
+        seq = []
+
+        def ext_value(spec):
+            if typ == "gcounter":
+                return vlib.coq_list(["(%s, %s)" % (vlib.coq_Z(a), vlib.coq_Z(b)) for a, b in spec])
+            v = "aw_init" if typ == "aworset" else "lww_init"
+            for c, e in spec:
+                if typ == "aworset":
+                    v = "(aw_write 100 (%s, %s) %s)" % (vlib.coq_Z(c), vlib.coq_Z(e), v)
+                else:
+                    v = "(lww_write 100 (%s, %s, %s) %s)" % (vlib.coq_Z(c), vlib.coq_Z(e), vlib.coq_Z(t0.pop(0)), v)
+            return v
+
+        def simple(pe):
+            k, i = pe[0], pe[1]
+            if k == "w":
+                if typ == "gcounter":
+                    return "FWrite %s %s" % (vlib.coq_Z(i), vlib.coq_Z(pe[2]))
+                if typ == "aworset":
+                    return "FWrite %s (%s, %s)" % (vlib.coq_Z(i), vlib.coq_Z(pe[2]), vlib.coq_Z(pe[3]))
+                return "FWrite %s (%s, %s, %s)" % (vlib.coq_Z(i), vlib.coq_Z(pe[2]), vlib.coq_Z(pe[3]), vlib.coq_Z(t0.pop(0)))
+            if k == "c":
+                return "FCommit %s" % vlib.coq_Z(i)
+            return "FAbort %s" % vlib.coq_Z(i)
+
+        def merge1(j):
+            return ["FTake %s" % vlib.coq_Z(j), "FApply %s" % vlib.coq_Z(j)]
+
+        k, i = ev[0], ev[1]
+        if k in ("w", "c", "a"):
+            seq.append(simple(ev))
+        elif k in ("t", "gt"):
+            rs = [j for j in range(n) if j != i]
+            seq.append("FBegin %s %s" % (vlib.coq_Z(i), coq_zl(rs)))
+            if k == "gt":      # the local section runs after the payload was read, before any call is served
+                seq += [simple(pe) for pe in ev[2]]
+            if prev_need[i] > 0:
+                seq += ["FServe %s %s" % (vlib.coq_Z(i), vlib.coq_Z(j)) for j in rs]
+                seq += ["FReply %s" % vlib.coq_Z(i) for _ in rs]
+                for j in rs:
+                    seq += merge1(j) + merge1(i)
+        elif k in ("r", "gm"):
+            seq.append("FRecv %s %s" % (vlib.coq_Z(i), ext_value(ev[2])))
+            seq += merge1(i)    # gm: the section waits for the merger, which holds the lock while it merges
+            if k == "gm":
+                seq += [simple(pe) for pe in ev[3]]
+        for e in seq[:-1]:
+            evs.append("(%s, None)" % e)
+        evs.append("(%s, Some %s)" % (seq[-1], vlib.coq_list([coq_obs(typ, s) for s in snaps])))
+        prev_need = [s["need"] for s in snaps]
+    fn = {"gcounter": "fgcr_check", "aworset": "fawr_check", "lww": "flwwr_check"}[typ]
+    return "%s %d%%nat %s %s %s" % (fn, n, vlib.coq_bool(case["self_in_peers"]), vlib.coq_bool(case.get("dead_peer", False)), vlib.coq_list(evs))
+
+
 # ------------------------------------------------------------------ driver
 
 def corpus():
@@ -363,14 +427,20 @@ def run(ctx):
                    for c in cases[:5]]
     if ctx.coq_ok:
         good = [c for c in cases if not c["_res"].get("err") and len(c["_res"]["snaps"]) == len(c["events"])]
-        # two shards evaluated by two coqc processes at the same time (quick); 300 per shard (thorough)
-        shard = max(1, (len(good) + 1) // 2) if ctx.tier == "quick" else 300
-        parts_ = [good[s:s + shard] for s in range(0, len(good), shard)]
+        # every schedule against the atomic model; schedules with gated events (and the corpus) also against the
+        # finer-grained model (quick), all schedules against both (thorough)
+        jobs = [(c, "atomic") for c in good]
+        jobs += [(c, "fine") for c in good if ctx.tier != "quick" or c.get("kind") == "corpus"
+                 or any(e[0] in ("gm", "gt") for e in c["events"])]
+        ctx.extra["fine_model_evaluations"] = sum(1 for j in jobs if j[1] == "fine")
+        shard = max(1, (len(jobs) + 1) // 2) if ctx.tier == "quick" else 300
+        parts_ = [jobs[s:s + shard] for s in range(0, len(jobs), shard)]
 
         def ev(ix):
             part = parts_[ix]
-            body = ("From PGV Require Import C13.Model.\n"
-                    "Definition results : list bool :=\n [" + ";\n  ".join(to_coq(c, c["_res"]) for c in part) + "].\n"
+            body = ("From PGV Require Import C13.Model C13.ModelFine.\n"
+                    "Definition results : list bool :=\n [" +
+                    ";\n  ".join((to_coq if w == "atomic" else to_coq_fine)(c, c["_res"]) for c, w in part) + "].\n"
                     "Definition M := Eval vm_compute in mismatches_from 0 results.\nPrint M.\n")
             return vlib.coq_eval("C13_cases_%d" % ix, body)
 
@@ -383,10 +453,10 @@ def run(ctx):
                 ctx.breaks.append({"what": "correspondence evaluation C13_cases did not compile", "detail": (out + err)[-2000:]})
                 break
             for k in mm:
-                c = part[k]
-                ctx.breaks.append({"what": "correspondence C13/Model.v vs distsys/resources/crdt.go differs on a schedule (payload %s)" % c.get("type"),
+                c, w = part[k]
+                ctx.breaks.append({"what": "correspondence C13/%s.v vs distsys/resources/crdt.go differs on a schedule (payload %s)" % ("Model" if w == "atomic" else "ModelFine", c.get("type")),
                                    "case": strip(c), "impl": [snap_brief(c.get("type"), sn) for sn in c["_res"]["snaps"]],
-                                   "model": "gcr_check/awr_check/lwwr_check = false (value/stable reads, hasOldValue or needBroadcastCount differ after some event)"})
+                                   "model": "%s model check = false (value/stable reads, hasOldValue or needBroadcastCount differ after some event)" % w})
     if ctx.replay:
         r = cases[0]["_res"]
         for ev, sn in zip(cases[0]["events"], r.get("snaps", [])):
